@@ -2,6 +2,7 @@ package props
 
 import (
 	"cmp"
+	"sort"
 	"encoding/json"
 	"fmt"
 	"slices"
@@ -90,7 +91,7 @@ func (a *algSet[T]) unchanged(before, after setSnap[T]) bool {
 	return eqSlices(before.vals, after.vals)
 }
 
-var pairKinds = []string{"disjoint", "overlapping", "a-subset-of-b", "b-subset-of-a", "equal", "same-object", "a-empty", "b-empty", "both-empty", "random"}
+var pairKinds = []string{"disjoint", "overlapping", "a-subset-of-b", "b-subset-of-a", "equal", "same-object", "a-empty", "b-empty", "both-empty", "random", "touching-ranges"}
 
 // buildAlgSet makes a set of the given kind holding `members` (reached by a
 // history with extra adds and removes so trees have arbitrary shapes).
@@ -248,6 +249,25 @@ func runC13Case[T comparable](c *core.Ctx, d *Dom[T], kind string) {
 	case "b-empty":
 		ma = take(r.Range(1, 6) * big)
 	case "both-empty":
+	case "touching-ranges":
+		// in the order of the comparator in use: one operand ends where the
+		// other begins, sharing exactly that one element (or, one time in three,
+		// just failing to)
+		sorted := append([]T{}, universe...)
+		sort.SliceStable(sorted, func(i, j int) bool { return cm.F(sorted[i], sorted[j]) < 0 })
+		if len(sorted) > 80 {
+			sorted = sorted[:r.Range(34, 80)]
+		}
+		p := len(sorted) / 2
+		lo, hi := sorted[:p+1], sorted[p:]
+		if r.Intn(3) == 0 {
+			hi = sorted[p+1:]
+		}
+		if r.Bool() {
+			ma, mb = append([]T{}, lo...), append([]T{}, hi...)
+		} else {
+			ma, mb = append([]T{}, hi...), append([]T{}, lo...)
+		}
 	default:
 		for _, v := range universe {
 			if r.Bool() {
